@@ -344,21 +344,20 @@ Proof. split; [vm_compute; reflexivity|]. exists [], (ItemQuery, 0, 6). eexists.
    PARTIAL, the domain excludes:
    - t a filter function name (refuted: C16_whitespace_insert_refuted), t a Time or a PredicateBound (lexTime and
      lexPredicateGlobalTime make the white-space rune part of the token text; quoted predicate bounds share the kind);
-   - a `"@[` or `"^^type:` delimiter that starts in xb and is completed by bb (no non-empty suffix of xb is a proper prefix of
-     one of the two strings; e.g. any xb without double quote, or ending in a complete token);
+   - a `"@[` or `"^^type:` delimiter that starts in xb and is completed by bb: the boolean [partial_marker_free] checks that
+     none of the nine non-empty proper prefixes of the two strings is a suffix of (the decoded) xb;
    - bb starting in the middle of a UTF-8 sequence (its first byte must be ASCII, as for every BQL token). *)
 Theorem C16_whitespace_insert_partial : forall (U : uni), ascii_ok U ->
   forall (xb ws bb : list byte),
     Forall (fun b => (9 <= bz b <= 13)%Z \/ bz b = 32%Z) ws -> ws <> [] ->
     match bb with [] => True | a :: _ => (bz a < 128)%Z end ->
-    (forall pat, pat = map bz s_anchor \/ pat = map bz s_literalType ->
-       forall P S pat', map fst (decode_all xb) = P ++ S -> S <> [] -> pat = S ++ pat' -> pat' = []) ->
+    partial_marker_free (map fst (decode_all xb)) = true ->
   forall (pre : list token) (t : token) (post : list token),
     fst (lex_with U (xb ++ bb)) = pre ++ t :: post -> post <> [] -> tk_end t = length xb -> tk_start t < tk_end t ->
     ~ (tk_kind t = ItemFilterFunction \/ tk_kind t = ItemTime \/ tk_kind t = ItemPredicateBound) ->
     fst (lex_with U (xb ++ ws ++ bb)) =
       pre ++ t :: map (fun u => (tk_kind u, tk_start u + length ws, tk_end u + length ws)) post.
-Proof. exact ws_insert_bytes. Qed.
+Proof. intros U HU xb ws bb W N Hb Hp. apply ws_insert_bytes; auto. now apply pmf_sound. Qed.
 Print Assumptions C16_whitespace_insert_partial.
 
 (* in particular the kinds are the same *)
@@ -366,13 +365,12 @@ Theorem C16_whitespace_insert_kinds_partial : forall (U : uni), ascii_ok U ->
   forall (xb ws bb : list byte),
     Forall (fun b => (9 <= bz b <= 13)%Z \/ bz b = 32%Z) ws -> ws <> [] ->
     match bb with [] => True | a :: _ => (bz a < 128)%Z end ->
-    (forall pat, pat = map bz s_anchor \/ pat = map bz s_literalType ->
-       forall P S pat', map fst (decode_all xb) = P ++ S -> S <> [] -> pat = S ++ pat' -> pat' = []) ->
+    partial_marker_free (map fst (decode_all xb)) = true ->
   forall (pre : list token) (t : token) (post : list token),
     fst (lex_with U (xb ++ bb)) = pre ++ t :: post -> post <> [] -> tk_end t = length xb -> tk_start t < tk_end t ->
     ~ (tk_kind t = ItemFilterFunction \/ tk_kind t = ItemTime \/ tk_kind t = ItemPredicateBound) ->
     map tk_kind (fst (lex_with U (xb ++ ws ++ bb))) = map tk_kind (fst (lex_with U (xb ++ bb))).
-Proof. exact ws_insert_kinds. Qed.
+Proof. intros U HU xb ws bb W N Hb Hp. apply ws_insert_kinds; auto. now apply pmf_sound. Qed.
 Print Assumptions C16_whitespace_insert_kinds_partial.
 
 (* the domain is inhabited:  ?x,?y  ->  ?x<SP><TAB>,?y  *)
@@ -382,7 +380,7 @@ Example C16_whitespace_insert_example :
 Proof.
   apply (C16_whitespace_insert_partial go_uni C16_go_uni_ascii_ok [x3f;x78] [x20;x09] [x2c;x3f;x79]
            ltac:(repeat constructor; vm_compute; intuition congruence) ltac:(discriminate) ltac:(reflexivity)
-           (no_quote_no_partial (map fst (decode_all [x3f;x78])) ltac:(vm_compute; repeat constructor; congruence))
+           ltac:(vm_compute; reflexivity)
            [] (ItemBinding, 0, 2) [(ItemComma, 2, 3); (ItemBinding, 3, 5); (ItemEOF, 5, 5)]).
   - vm_compute. reflexivity.
   - discriminate.
@@ -400,8 +398,7 @@ Theorem C16_whitespace_insert_any_partial : forall (U : uni), ascii_ok U ->
   forall (xb ws bb : list byte),
     Forall (fun b => (9 <= bz b <= 13)%Z \/ bz b = 32%Z) ws -> ws <> [] ->
     (exists a bb', bb = a :: bb' /\ (bz a < 128)%Z) ->
-    (forall pat, pat = map bz s_anchor \/ pat = map bz s_literalType ->
-       forall P S pat', map fst (decode_all xb) = P ++ S -> S <> [] -> pat = S ++ pat' -> pat' = []) ->
+    partial_marker_free (map fst (decode_all xb)) = true ->
   forall (pre : list token) (t : token) (post : list token),
     fst (lex_with U (xb ++ bb)) = pre ++ t :: post -> post <> [] -> tk_end t = length xb -> tk_start t < tk_end t ->
     tk_kind t <> ItemFilterFunction ->
@@ -409,7 +406,7 @@ Theorem C16_whitespace_insert_any_partial : forall (U : uni), ascii_ok U ->
       fst (lex_with U (xb ++ ws ++ bb)) =
         pre ++ (tk_kind t, tk_start t, tk_end t + g) ::
                map (fun u => (tk_kind u, tk_start u + length ws, tk_end u + length ws)) post.
-Proof. exact ws_insert2_bytes. Qed.
+Proof. intros U HU xb ws bb W N Hb Hp. apply ws_insert2_bytes; auto. now apply pmf_sound. Qed.
 Print Assumptions C16_whitespace_insert_any_partial.
 
 (* e.g.  < 1;  ->  < 1<SP>;  : the Time token "1" becomes "1<SP>" *)
